@@ -23,7 +23,10 @@ MANIFEST = {
             'np_pseudorandom_share_0 term (power sum i1^d..i1^1) = pseudorandom_share_zero term (Horner) on the same PRF block. Every run ties this to /repo: '
             'secure int / fixed-point / prime-field arrays (size <= 24, rank <= 3, broadcasts) in the m-party simulator '
             '((m,t)=(1,0),(3,1), PRSS on/off) against plain NumPy, against the same computation with secure scalars, and '
-            'against the Coq index-map/matmul/broadcast model by vm_compute; thresha np_* vs list versions compared exactly.',
+            'against the Coq index-map/matmul/broadcast model by vm_compute; secure arrays over GF(2^8), GF(3^4) and GF(2^31-1) '
+            '(elementwise, matmul, reductions, movement, input by every party) at m=3,t=1 and m=5,t=2, PRSS on/off, against scalar '
+            'field arithmetic and secure scalars, every party\'s output compared; thresha np_* vs list versions compared exactly, '
+            'for extension fields including recombination of the array shares from every (t+1)-subset.',
     'note': 'The secure content of the array operations is the scalar protocol applied elementwise (scalar properties are '
             'proved elsewhere); here the theorems are the index maps that transfer them. Correspondence/oracle-only (no '
             'theorem): comparisons and np_sort/np_sgn/np_trunc as protocols (compared with NumPy and with secure scalars), '
